@@ -7,6 +7,7 @@ import (
 	"encoding/json"
 	"fmt"
 	"math"
+	"math/big"
 	"math/rand"
 	"reflect"
 	"sort"
@@ -122,6 +123,16 @@ func reprFromJSON(x any) *Repr {
 }
 
 // testDrop is a Drop yielding a fixed value.
+// lqAcct: a record as an embedding program holds it - tagged fields, one method on the value, one on the pointer
+// (the latter exists only when the binding is a pointer)
+type lqAcct struct {
+	Name string `liquid:"name"`
+	N    int    `liquid:"n"`
+}
+
+func (a lqAcct) Label() string { return "L:" + a.Name }
+func (a *lqAcct) Total() int   { return 2 * a.N }
+
 type testDrop struct{ v any }
 
 func (d testDrop) ToLiquid() any { return d.v }
@@ -239,6 +250,29 @@ func realiseBase(v J, r *Repr, path, h string) (any, error) {
 	case "big":
 		// an integer beyond 32 bits: the narrowest 64-bit Go type that holds it
 		digits := bytesOf(v["digits"])
+		if h == "float64" || h == "float32" {
+			// (only where the float is exactly that whole number)
+			sign := ""
+			if jbool(v, "neg") {
+				sign = "-"
+			}
+			bf, _, err := big.ParseFloat(sign+digits, 10, 200, big.ToNearestEven)
+			if err != nil {
+				return nil, err
+			}
+			if h == "float32" {
+				f, acc := bf.Float32()
+				if acc != big.Exact {
+					return nil, fmt.Errorf("%s is not exactly a float32", digits)
+				}
+				return f, nil
+			}
+			f, acc := bf.Float64()
+			if acc != big.Exact {
+				return nil, fmt.Errorf("%s is not exactly a float64", digits)
+			}
+			return f, nil
+		}
 		if jbool(v, "neg") {
 			n, err := strconv.ParseInt("-"+digits, 10, 64)
 			if err != nil {
@@ -430,6 +464,18 @@ func realiseBase(v J, r *Repr, path, h string) (any, error) {
 				t[k] = s
 			}
 			return t, nil
+		case "acct", "acctptr": // a named Go struct with methods on the value and on the pointer
+			a := lqAcct{}
+			if s, ok := out["name"].(string); ok {
+				a.Name = s
+			}
+			if n, ok := out["n"].(int); ok {
+				a.N = n
+			}
+			if h == "acctptr" {
+				return &a, nil
+			}
+			return a, nil
 		case "struct", "structptr": // a Go struct whose fields carry the keys as `liquid:"key"` tags
 			sort.Strings(keys)
 			fields := make([]reflect.StructField, len(keys))
